@@ -589,30 +589,30 @@ def beeHwReadAll (c : CryptoOps) (es : List BeeEngine) (base : Nat) (ct : Bytes)
 /-! ## OTFAD through SB2.1 (`spsdk/sbfile/sb2/sb_21_helper.py`: BD commands `encrypt (id) { load … > addr; }` and
     `keywrap (id) { load {{ kek }} > addr; }`) and the `KeyBlob` constructor -/
 
-/-- the checks of `KeyBlob.__init__` as coded — note the `and`: a key of the wrong length is accepted as long as the
-    counter has 8 bytes (and vice versa) -/
+/-- the checks of `KeyBlob.__init__` (key 16 bytes, counter 8 bytes, `0 <= start <= end <= 0xFFFFFFFF`, flags within
+    the mask, start aligned to 1 KiB) -/
 def KeyBlob.ctorOk (kb : KeyBlob) : Bool :=
-  !(kb.key.length != otfadKeySize && kb.ctr.length != otfadCtrSize)
+  !(kb.key.length != otfadKeySize || kb.ctr.length != otfadCtrSize)
   && decide (kb.start ≤ kb.end_) && decide (kb.end_ ≤ 0xFFFFFFFF)
   && kb.flags / (otfadKeyFlagMask + 1) == 0            -- `key_flags & ~_KEY_FLAG_MASK == 0`
   && kb.start % (otfadStartAddrMask + 1) == 0          -- `start_addr & _START_ADDR_MASK == 0`
 
-/-- the key blob the SB2.1 helper builds: default flags `VLD | ADE`, no test parameters -/
-def Sb21.blob (start end_ : Nat) (key ctr : Bytes) : KeyBlob :=
-  { start := start, end_ := end_, key := key, ctr := ctr, flags := otfadFlagVLD ||| otfadFlagADE, zeroFill := [], crcFill := [] }
+/-- a key blob as the SB2.1 helper builds it (no test parameters) -/
+def Sb21.blob (start end_ : Nat) (key ctr : Bytes) (flags : Nat) : KeyBlob :=
+  { start := start, end_ := end_, key := key, ctr := ctr, flags := flags, zeroFill := [], crcFill := [] }
 
-/-- `SB21Helper._encrypt`: ADE / VLD are read from the low bits of the `end` value; the data are zero padded to 512
-    bytes; `encrypt_image` is called WITHOUT a counter value (it counts from the key blob's start address) -/
+/-- `SB21Helper._encrypt`: key blob with the default flags; ADE / VLD are read from the low bits of the `end` value; the
+    data are zero padded to 512 bytes and encrypted with the counter bound to the LOAD ADDRESS -/
 def Sb21.encrypt (c : CryptoOps) (start end_ : Nat) (key ctr : Bytes) (swap : Bool) (address : Nat) (data : Bytes) : PyRes Bytes :=
-  let kb := Sb21.blob start end_ key ctr
+  let kb := Sb21.blob start end_ key ctr (otfadFlagVLD ||| otfadFlagADE)
   if !kb.ctorOk then .error .spsdk
   else if end_ &&& otfadFlagADE ≠ 0 ∧ end_ &&& otfadFlagVLD ≠ 0 then
-    kb.encryptImage c address (zeroPad sb21EncryptAlign data) swap none
+    kb.encryptImage c address (zeroPad sb21EncryptAlign data) swap (some address)
   else .ok data
 
-/-- `SB21Helper._keywrap`: `KeyBlob(start, end, key, counter).export(kek)`; `rnd` = the random `zero_fill` -/
+/-- `SB21Helper._keywrap`: `KeyBlob(start, end, key, counter, key_flags = end & 7).export(kek)`; `rnd` = the random `zero_fill` -/
 def Sb21.keywrap (c : CryptoOps) (start end_ : Nat) (key ctr kek rnd : Bytes) : PyRes Bytes :=
-  let kb := Sb21.blob start end_ key ctr
+  let kb := Sb21.blob start end_ key ctr (end_ &&& otfadKeyFlagMask)
   if !kb.ctorOk then .error .spsdk else kb.export c kek 0 rnd
 
 /-! ## BEE region header (`BeeRegionHeader.export`): EKIB = AES-ECB(sw_key, kib_key ‖ kib_iv) at offset 0,
